@@ -99,7 +99,7 @@ func (s *S) Run(c *scen.Ctx) {
 	s.pushCB = simrt.Draw(2, "c08.pushcb") == 1
 	var idle time.Duration
 	if s.pushCB && simrt.Draw(2, "c08.keepalive") == 1 {
-		idle = time.Duration(600+400*simrt.Draw(4, "c08.idle")) * time.Millisecond
+		idle = []time.Duration{60, 140, 600, 1000}[simrt.Draw(4, "c08.idle")] * time.Millisecond
 		s.keepAlive = true
 	}
 	s.registry = simrt.Draw(4, "c08.registry") == 3
